@@ -87,3 +87,58 @@ def make_class(schema: dict) -> type:
     _CACHE[sid] = cls
     project.REG[sid] = cls
     return cls
+
+
+def fresh_class(schema: dict) -> type:
+    """New class objects (and so new annotation / union / generic-alias objects) for the whole tree of
+    `schema`: what a program does that defines an entity class again after earlier classes were dropped."""
+    def forget(s: dict) -> None:
+        _CACHE.pop(s.get("sid"), None)
+        for fs in s["fields"]:
+            if fs["kind"] == "struct":
+                forget(fs["sub"])
+        if s.get("base"):
+            forget(s["base"])
+    if "sid" not in schema:
+        attach_sids(schema)
+    forget(schema)
+    return make_class(schema)
+
+
+_SWAP = {"int8": "int32", "int16": "int64", "int32": "int8", "int64": "int16", "uint8": "uint32",
+         "uint16": "uint64", "uint32": "uint8", "uint64": "uint16", "string": "bytes", "bytes": "string",
+         "bool": "int16", "float64": "int32", "uuid": "int64"}
+
+
+def dying_class(schema: dict, top: bool = True) -> type:
+    """A throw-away class shaped like `schema` (same field positions, arrays and optionals in the same
+    places) but with different leaf types and different nested classes, registered nowhere, and - at the top -
+    ending in a field kio cannot classify (no kafka_type), so deriving a reader or writer for it fails after
+    every earlier field has been looked at.  Tagged fields are left out (they would need defaults)."""
+    from kio.static.constants import EntityType
+    from kio.static.primitive import i16, i32
+    fields = []
+    for fs in schema["fields"]:
+        if fs["tag"] >= 0:
+            continue
+        meta = {}
+        if fs["kind"] == "struct":
+            t = dying_class(fs["sub"], False)
+        else:
+            kt = _SWAP.get(fs["ktype"], fs["ktype"])
+            t = _prim_type(kt)
+            meta["kafka_type"] = kt
+        if fs["arr"]:
+            item_t = (t | None) if fs["inul"] else t
+            t = tuple[item_t, ...]
+        if fs["nul"]:
+            t = t | None
+        fields.append((fs["name"], t, dataclasses.field(metadata=meta)))
+    if top:
+        fields.append(("oops_", i32, dataclasses.field(metadata={})))
+    else:
+        fields.append(("extra_", i32, dataclasses.field(metadata={"kafka_type": "int32"})))
+    ns = {"__type__": EntityType.nested, "__version__": i16(0), "__flexible__": bool(schema["flex"])}
+    cls = dataclasses.make_dataclass(schema["name"], fields, frozen=True, slots=True, kw_only=True, namespace=ns)
+    cls.__module__ = "kioverif_dying"
+    return cls
